@@ -144,14 +144,18 @@ def run(cx):
     body = branches['logicle']
     a = last_assign(body, res_var)
     cx.need(a is not None, 'hist_bins: logicle branch does not define the edges')
-    tdefs = [st for st in body if isinstance(st, ast.Assign) and isinstance(st.value, ast.Call)
-             and (dotted(st.value.func) or '').endswith('_LogicleTransform')]
-    cx.need(len(tdefs) == 1, 'hist_bins: logicle branch does not build exactly one transform')
-    t = tdefs[0].targets[0].id
-    c = tdefs[0].value
-    ok = sym.norm(c) == sym.norm('FlowCal.plot._LogicleTransform(data=self, channel=%s, **kwargs)' % ch)
-    fn.ob('FORMULA', 'the logicle transform is built for this sample and this channel with the caller\'s overrides', ok, c,
-          detail='' if ok else norm_stmt(c), key='logicle-transform')
+    # the transform whose images the edges are: receiver of transform_non_affine in the edges expression
+    recv = [c.func.value.id for c in ast.walk(a.value) if isinstance(c, ast.Call) and isinstance(c.func, ast.Attribute)
+            and c.func.attr == 'transform_non_affine' and isinstance(c.func.value, ast.Name)]
+    cx.need(len(recv) == 1, 'hist_bins: logicle edges are not `<transform>.transform_non_affine(...)`')
+    t = recv[0]
+    want_t = sym.norm('FlowCal.plot._LogicleTransform(data=self, channel=%s, **kwargs)' % ch)
+    tdefs = [st for st in fn.stmts(ast.Assign, loop) if any(isinstance(x, ast.Name) and x.id == t for x in st.targets)]
+    ok = len(tdefs) == 1 and sym.norm(tdefs[0].value) == want_t and any(tdefs[0] is x for x in body)
+    fn.ob('FORMULA', 'the logicle transform is built, in this iteration and unconditionally, for this sample and this channel with the caller\'s overrides',
+          ok, tdefs[0] if tdefs else a,
+          detail='' if ok else 'transform `%s` is defined by %s' % (t, [norm_stmt(x) for x in tdefs] or 'nothing in the loop'),
+          key='logicle-transform')
     spec_check(fn, 'FORMULA', 'logicle edges are the images of n+1 uniform display points from -d/2 to M+d/2, d=M/(resolution-1)',
                a.value, 'T.transform_non_affine(np.linspace(-(T.M / (S - 1))/2, T.M + (T.M / (S - 1))/2, N + 1))',
                roles={'T': ('var', t), 'S': ('var', res), 'N': ('var', nb)}, opaque=(t, res, nb), at=a, node=a)
